@@ -218,9 +218,16 @@ impl ServerWorld {
                     }
                 }
                 let vp = valid_packet(1 << 20, 40);
+                let rx_before = c.bytes_received_per_sec(id).to_bits();
                 guard("process_packet_from", || {
                     let _ = c.process_packet_from(&vp, id);
                 })?;
+                if c.bytes_received_per_sec(id).to_bits() != rx_before {
+                    return Err(Violation::new(
+                        "C12/disconnected-connection-accepts-input",
+                        format!("connection {} ({:?}): a packet handed to it changed bytes_received_per_sec from {} to {}", id, r, f64::from_bits(rx_before), c.bytes_received_per_sec(id)),
+                    ));
+                }
                 guard("send_message", || c.send_message(id, 1u8, vec![1u8]))?;
                 let after = c.verif_connection(id).map(|x| x.verif_snapshot());
                 if before != after {
@@ -456,6 +463,7 @@ impl World for ClientWorld {
             self.next_seq += 1;
         }
         let before = c.verif_snapshot();
+        let rx_before = c.bytes_received_per_sec().to_bits();
         let was = c.disconnect_reason();
         let mut emitted = 0usize;
         let mut yielded = false;
@@ -507,6 +515,13 @@ impl World for ClientWorld {
                 return Err(Violation::new(
                     "C12/disconnected-client-accepts-input",
                     format!("client disconnected with {:?} changed state on {:?}", f, a),
+                ));
+            }
+            // also through the public statistics: a packet handed to a disconnected connection is not counted as received
+            if !matches!(a, CAct::Update) && c.bytes_received_per_sec().to_bits() != rx_before {
+                return Err(Violation::new(
+                    "C12/disconnected-client-accepts-input",
+                    format!("client disconnected with {:?}: {:?} changed bytes_received_per_sec from {} to {}", f, a, f64::from_bits(rx_before), c.bytes_received_per_sec()),
                 ));
             }
         }
